@@ -195,7 +195,7 @@ def new_adapter(it, ctx, cls_name, **attrs):
 # dual averaging
 
 
-def dual_averaging(run, it):
+def dual_averaging(run, it, only_search=False):
     cls = "DualAveragingStepSizeAdapter"
     for m in ("update", "finalize", "initialize", "_find_and_set_init_step_size"):
         run.function(f"mici.adapters.{cls}.{m}")
@@ -239,7 +239,8 @@ def dual_averaging(run, it):
         ctx.prove(tag + "/step-size-is-exp-of-current-iterate", to_real(ss) == exp_term(ctx, log_eps), text="step_size = exp(log eps_m)")
         ctx.prove(tag + "/step-size-positive", to_real(ss) > 0)
         ctx.prove(tag + "/regularisation-target-unchanged", to_real(state["log_step_size_reg_target"]) == mu)
-    it.explore(h_update, "dual.update")
+    if not only_search:
+        it.explore(h_update, "dual.update")
 
     def h_finalize(ctx):
         which = ctx.choose(4, "case")  # 0 single dict, 1..3 chains with each reducer
@@ -274,7 +275,8 @@ def dual_averaging(run, it):
             ctx.prove(tag + "/geometric-mean-reducer", got == exp_term(ctx, sum(sms[1:], sms[0]) / nchain), text="exp(mean of smoothed_c)")
         else:
             ctx.prove(tag + "/min-reducer", z3.And(z3.Or(*[got == e for e in es]), *[got <= e for e in es]), text="min_c exp(smoothed_c)")
-    it.explore(h_finalize, "dual.finalize", roots=[[0], [1], [2], [3]])
+    if not only_search:
+        it.explore(h_finalize, "dual.finalize", roots=[[0], [1], [2], [3]])
 
     def h_initialize(ctx):
         has_target = ctx.choose(2, "target")
@@ -297,7 +299,8 @@ def dual_averaging(run, it):
         else:
             ctx.prove(tag + "/default-regularisation-target", exp_term(ctx, st["log_step_size_reg_target"]) == 10 * init,
                       text="default target = log(10 * init_step_size)")
-    it.explore(h_initialize, "dual.initialize")
+    if not only_search:
+        it.explore(h_initialize, "dual.initialize")
 
     # --- initial step size search: returns only on a log-2 crossing --------------------------
     q = cls + "._find_and_set_init_step_size"
@@ -306,14 +309,18 @@ def dual_averaging(run, it):
     def h_search(ctx):
         ad, ex = new_adapter(it, ctx, cls, max_init_step_size_iters=z3.Int("max_iters"))
         ctx.assume(z3.Int("max_iters") >= 0)
-        integ = Opaque("integrator", step_size=None)
+        prev = [None, z3.Real("previous_step_size")][ctx.choose(2, "integrator-has-a-previous-step-size")]
+        integ = Opaque("integrator", step_size=prev)
         thr_holder = {}
+        first_probe = []
         h_init_nan = ctx.choose(2, "h_init_nan")
         h_init = float("nan") if h_init_nan else z3.Real("h_init")
         probes = []
 
         def step(ex_, st):
             S = to_real(integ._attrs["step_size"])
+            if not first_probe and ex_.ctx.ghost.get("loop_index", 0) is not None:
+                first_probe.append((S, ex_.ctx.ghost.get("loop_index", 0)))
             if ex_.ctx.choose(2, "step-outcome") == 1:
                 ex_.ctx.assume(BIG(S))
                 ie = ex_.interp.module("mici.errors").resolve("ConvergenceError", ex_.ctx)
@@ -339,6 +346,10 @@ def dual_averaging(run, it):
         def havoc(ex_):
             c = ex_.ctx
             c.ghost["loop_index"] = c.fresh("s", "int")
+            if c.choose(2, "first-iteration") == 0:
+                c.assume(c.ghost["loop_index"] == 0)  # iteration 0 runs from the exact entry state
+                return
+            c.assume(c.ghost["loop_index"] >= 1)
             S = c.fresh("S", "real")
             integ._attrs["step_size"] = S
             ex_.env.set("step_size_too_big", c.fresh("too_big", "bool"))
@@ -355,9 +366,21 @@ def dual_averaging(run, it):
             return z3.And(s >= 0, S > 0, rel)
         it.loop_specs[(q, 0)] = LoopSpec(inv, havoc)
         tag = P + q
+
+        def check_first(ctx_):
+            # the search is a function of the chain's own inputs: its first probe is at step size 1 whatever value an earlier chain
+            # / an earlier stage left in the (shared) integrator
+            if first_probe:
+                S0, idx = first_probe[0]
+                if not is_z3(idx) or ctx_._check(lift(idx) != 0) == z3.unsat:
+                    ctx_.prove(tag + "/search-starts-from-step-size-one", S0 == 1,
+                               text="the initial step-size search starts from 1 independently of the integrator's previous step size (shared between chains)")
         try:
             try:
                 res = ex.call(ex.getattr(ad, "_find_and_set_init_step_size"), [state, system, integ], {})
+            except PathEnd:
+                check_first(ctx)
+                raise
             except PyRaise as pr:
                 ok = pr.exc.cls.name == "AdaptationError"
                 ctx.run.ob(tag + "/only-adaptation-error-escapes", core.DISCHARGED if ok else core.FAILED, "pyvc",
@@ -365,6 +388,7 @@ def dual_averaging(run, it):
                 return
         finally:
             del it.loop_specs[(q, 0)]
+        check_first(ctx)
         if h_init_nan:
             ctx.run.ob(tag + "/nan-initial-energy-raises", core.FAILED, "pyvc", detail="search returned although the initial Hamiltonian is NaN")
             return
@@ -378,7 +402,7 @@ def dual_averaging(run, it):
 
     def ex_env_lookup(ctx, key):
         return ctx.ghost.get(key, z3.BoolVal(True))
-    it.explore(h_search, "dual.search", roots=[[0], [1]])
+    it.explore(h_search, "dual.search", roots=[[a, b] for a in range(2) for b in range(2)])
 
 
 # ---------------------------------------------------------------------------------------
